@@ -139,6 +139,41 @@ theorem graph_shape (cx : WfCtx) (f : Function) (h : graphIll cx f = none) :
     | none => simp [he] at h5
     | some ex => exact ⟨ex, rfl, by simpa [he] using h5⟩
 
+/-- acceptance also excludes dead ends: control leaves an accepted instruction graph only at its exit — the exit block
+    has no outgoing edge, and every other block that the entry reaches has one (with `guards_exactly_one`: exactly one
+    enabled in every defining state) -/
+theorem graph_no_dead_end (cx : WfCtx) (f : Function) (h : graphIll cx f = none) :
+    (∀ ex, f.cfg.exit = some ex → f.cfg.edgesOut ex = []) ∧
+    (∀ en, f.cfg.entry = some en → ∀ b ∈ f.cfg.blocks,
+      b.index ∈ reachRounds f.cfg.edges f.cfg.blocks.length [en] → f.cfg.exit ≠ some b.index →
+      f.cfg.edgesOut b.index ≠ []) := by
+  unfold graphIll firstFalse at h
+  simp only [Option.map_eq_none_iff, List.find?_eq_none] at h
+  have h8 := h _ (List.mem_cons_of_mem _ (List.mem_cons_of_mem _ (List.mem_cons_of_mem _
+    (List.mem_cons_of_mem _ (List.mem_cons_of_mem _ (List.mem_cons_of_mem _ (List.mem_cons_of_mem _
+    (List.mem_cons_self ..))))))))
+  have h9 := h _ (List.mem_cons_of_mem _ (List.mem_cons_of_mem _ (List.mem_cons_of_mem _
+    (List.mem_cons_of_mem _ (List.mem_cons_of_mem _ (List.mem_cons_of_mem _ (List.mem_cons_of_mem _
+    (List.mem_cons_of_mem _ (List.mem_cons_self ..)))))))))
+  simp only [Bool.not_eq_true', Bool.not_eq_false, Bool.not_eq_eq_eq_not, Bool.not_true,
+    Bool.not_false] at h8 h9
+  refine ⟨?_, ?_⟩
+  · intro ex hex
+    simp only [hex] at h9
+    simpa [List.isEmpty_iff] using h9
+  · intro en hen b hb hr hne hempty
+    simp only [List.all_eq_true, hen] at h8
+    have := h8 b hb
+    rw [hempty] at this
+    simp only [List.isEmpty_nil, Bool.not_true, Bool.or_false, Bool.or_eq_true, beq_iff_eq,
+      Bool.not_eq_true'] at this
+    rcases this with h1 | h1
+    · exact hne h1
+    · have : (reachRounds f.cfg.edges f.cfg.blocks.length [en]).contains b.index = true :=
+        List.contains_iff_mem.mpr hr
+      rw [this] at h1
+      cases h1
+
 /-- acceptance of a whole lifted block: every instruction graph is accepted and the successor guards are
     well-formed and form a partition -/
 theorem btr_accepted (cx : WfCtx) (r : BTR) (h : btrIll cx r = none) :
